@@ -7,11 +7,12 @@ TRUSTED = ["pyvc encoding of Python semantics (vlib/pyvc)", "z3 5.1 / cvc5 1.0.3
 
 
 def add_proof(run, pid, names, companions, proved_text):
-    merged = {"violations": [], "covers": []}
+    merged = {"violations": [], "covers": [], "aliases": {}}
     for f in companions:
         c = f()
         merged["violations"].extend(c["violations"])
         merged["covers"].extend(c.get("covers", []))
+        merged["aliases"].update(c.get("aliases", {}))
         res = {"evaluations": c["evaluations"], "nontrivial": c["nontrivial"], "samples": c["samples"][:1],
                "rule": c.get("rule"), "violations": [fw.Violation(v[0], v[1], v[2], case=v[3]) for v in c["violations"]]}
         run.add_bounded(res)
